@@ -8,11 +8,12 @@ def run(ck):
     import contracts_async  # noqa
     ck.assumptions += ['every await completes; one connection at a time', 'AtomicU64::fetch_add returns distinct values to concurrent callers (contract)']
     ck.out_of_scope += ['byte counters vs bytes actually relayed (inside copy_half\'s select!)', 'live listing / exactly-once logging under concurrency (gc_thread is a spawned task)',
-                        'log rotation', 'history trimming loop (inside the spawned gc task)']
+                        'log rotation', 'access-log writes of the gc task']
     dispatch.spec_process_request(ck)
     lifecycle.spec_ref_ops(ck)
     lifecycle.spec_set_state(ck)
     lifecycle.spec_drop(ck)
+    lifecycle.spec_gc_tick(ck)
     timeouts.spec_create_context(ck)
     timeouts.spec_incr(ck, 'incr_sent_bytes')
     timeouts.spec_incr(ck, 'incr_sent_frames')
